@@ -17,8 +17,10 @@ pub mod c11;
 pub mod c12;
 pub mod c13;
 pub mod c14;
+pub mod c15;
 pub mod c16;
 pub mod c17;
+pub mod c18;
 
 pub fn dispatch(args: &Args) -> Option<Report> {
     Some(match args.prop.as_str() {
@@ -36,8 +38,10 @@ pub fn dispatch(args: &Args) -> Option<Report> {
         "c12" => c12::run(args),
         "c13" => c13::run(args),
         "c14" => c14::run(args),
+        "c15" => c15::run(args),
         "c16" => c16::run(args),
         "c17" => c17::run(args),
+        "c18" => c18::run(args),
         _ => return None,
     })
 }
@@ -46,6 +50,8 @@ pub fn dispatch(args: &Args) -> Option<Report> {
 pub fn iso_case(args: &Args, idx: u64) -> CaseOut {
     match args.prop.as_str() {
         "c08" => c08::iso_case(args, idx),
+        "c15" => c15::iso_case(args, idx),
+        "c18" => c18::iso_case(args, idx),
         _ => CaseOut { class: "unknown-prop".into(), ..Default::default() },
     }
 }
@@ -54,6 +60,8 @@ pub fn iso_case(args: &Args, idx: u64) -> CaseOut {
 pub fn iso_describe(args: &Args, idx: u64) -> CaseDesc {
     match args.prop.as_str() {
         "c08" => c08::describe(args, idx),
+        "c15" => c15::describe(args, idx),
+        "c18" => c18::describe(args, idx),
         _ => CaseDesc { decoder: "?".into(), mutation: "?".into(), case: serde_json::Value::Null },
     }
 }
